@@ -64,7 +64,7 @@ def run(pid, tier, seed):
         ident = {"clause": cl}
       elif ev["op"] == "mul":
         both = opclass(ev["w"]) + " " + opclass(ev["x"])
-        ident = {"clause": cl, "kind": ev["kind"], "po2_max_value_le_1": "max_value<=1" in both,
+        ident = {"clause": cl, "kind": ev["kind"], "stochastic_twin": bool(ev.get("twin")), "po2_max_value_le_1": "max_value<=1" in both,
                  "relu_1_1": "relu(1,1)" in both,
                  "operand_kinds": "x".join(sorted({opclass(ev["w"]).split("(")[0].split("-")[0],
                                                    opclass(ev["x"]).split("(")[0].split("-")[0]}))}
